@@ -372,9 +372,13 @@ CycleWhole ==
 (*           finite value is a documented deviation / bound, exactly 0,    *)
 (*           the tiniest and the hugest included), 90 = NaN (invalid);     *)
 (*           0 for the components without a strength                       *)
-(* cact.sibs further instances of the same component under OTHER           *)
-(*           identifiers, initialised in the same state:                   *)
-(*           sequence of [id, pr, st]                                      *)
+(* cact.sibs further instances of the same component initialised in the    *)
+(*           same state: sequence of [id, pr, st, up] -- under OTHER       *)
+(*           identifiers, or an EARLIER instance under the identifier of   *)
+(*           the executed one (an earlier phase, a reused state): the      *)
+(*           executed instance's own `init` comes after it.  up = 1: that  *)
+(*           instance lives in the ENCLOSING scope, the executed one is    *)
+(*           initialised and run in a child scope (as `Scope` does)        *)
 (* cact.adapt adaptations made through the state after all `init`s, in     *)
 (*           order: sequence of [id, w, v]: w = 1 MutationRate := class v, *)
 (*           w = 2 MutationStrength := ladder index v, of identifier id    *)
@@ -724,7 +728,8 @@ ValidComp(a) ==
     \* siblings: other identifiers of an identifier-generic component; adaptations address existing instances
     /\ a.c \notin IdComps => a.sibs = <<>> /\ a.adapt = <<>>
     /\ \A k \in DOMAIN a.sibs :
-          /\ a.sibs[k].id \in Range(IdSeq) \ {a.id}
+          /\ a.sibs[k].id \in Range(IdSeq)          \* (a.id itself: an earlier instance of the same identifier)
+          /\ a.sibs[k].up \in {0, 1}
           /\ \A k2 \in DOMAIN a.sibs : k2 # k => a.sibs[k2].id # a.sibs[k].id
           /\ a.sibs[k].pr \in 0..3
           /\ a.sibs[k].st \in (IF a.c \in StrComps THEN 1..StTop \cup {StBad} ELSE {0})
